@@ -24,7 +24,7 @@ import json
 import os
 from typing import Any, Dict, List, Optional, Set, Tuple
 
-from ..absint import App, Obj, Sym, Unsupported, vrepr
+from ..absint import App, ClassRef, FuncRef, Interp, Obj, Sym, Unsupported, vrepr
 from ..cfg import CFG, calls_in
 from ..execmodel import tstr, vshape, vtype
 from ..instrcases import cases, find_class, parse_type, run_case, run_l1
@@ -262,6 +262,110 @@ def run(repo: Repo, chk: Check) -> None:
     # ---- 7 SLICE guard ---------------------------------------------------------------------------------------------------------------------
     chk.set_clause('C01.7')
     _slice_guard(repo, chk)
+
+    # ---- 8 recursive lambdas: the body built by LAMBDA_REC runs on `argument : the lambda itself : []` -------------------------------------
+    chk.set_clause('C01.8')
+    _lambda_rec(repo, chk)
+
+
+def _lambda_rec(repo: Repo, chk: Check) -> None:
+    """LAMBDA_REC ty1 ty2 code pushes a lambda; when it is EXECuted on an argument the reference runs `code` on the stack
+    `argument : lambda : []` (code :: ty1 : lambda ty1 ty2 : [] => ty2 : []).  LambdaRecInstruction.execute is interpreted with the code
+    an abstract block; the body it builds for the lambda (a sequence of instruction classes ending in the block) is then run on the
+    stack [argument] under the checker's own semantics of the few instructions such a prelude can be made of, and the stack handed to the
+    block is compared."""
+    from ..absint import Hooks
+    from ..execmodel import ExecHooks, TCls
+    from ..instrcases import B, L, conv_args, to_obj, UNDEF
+    from ..instrmodel import mk_stack, prim_of
+
+    LR = 'pytezos.michelson.instructions.control.LambdaRecInstruction'
+    flr = repo.find_method(LR, 'execute')
+    chk.require(flr is not None, 'LambdaRecInstruction.execute not found')
+    undefined = Obj(UNDEF, {}, tag='Undefined')
+    ra, _fa = conv_args(['nat', 'string', B('RecBody', 2, ['string'])], undefined)
+
+    class LRHooks(ExecHooks):
+        def call(self, it, callee, args, kwargs, node):
+            if isinstance(callee, FuncRef) and callee.fi is not None and callee.fi.name == 'create_type' and isinstance(callee.self_val, ClassRef):
+                q = callee.self_val.qual
+                a = list(kwargs.get('args', args[0] if args else []))
+                if q.endswith('.MichelineSequence'):
+                    return App('seq', *a)
+                if self.is_instr_cls(callee.self_val):
+                    return App('icls', prim_of(self.repo, q), *a)
+            return super().call(it, callee, args, kwargs, node)
+
+        def setattr(self, it, obj, name, value, node):
+            if isinstance(obj, App) and obj.op == 'icls':
+                return None  # bookkeeping attributes of a created instruction class (recursion depth)
+            return NotImplemented
+
+        def attr(self, it, obj, name, node):
+            if self.is_instr_cls(obj) and name == 'depth':
+                return 0
+            return super().attr(it, obj, name, node)
+
+    hooks = LRHooks(repo, {'args': list(ra), '_undefined': undefined})
+    it = Interp(repo, hooks, max_depth=30, max_paths=50)
+    it.max_recursion = 4
+
+    def go(i):
+        st = mk_stack([to_obj(L('mutez', 'z'), undefined)])
+        i.call_function(FuncRef(flr, ClassRef(LR), True), [st, [], Sym('context')], {}, None, force_inline=True)
+        return list(st.fields['items'])
+
+    res = it.run_paths(go)
+    ok = len(res) == 1 and res[0].outcome == 'return' and len(res[0].value) == 2 and isinstance(res[0].value[0], Obj) and 'value' in res[0].value[0].fields
+    chk.ob('R-TEMPLATE', LR, ok, 'LAMBDA_REC pushes one lambda value', flr.loc, {'outcomes': [(p.outcome, vrepr(p.value)[:120]) for p in res]},
+           what='LAMBDA_REC does not push a single lambda value')
+    if not ok:
+        return
+    lam = res[0].value[0]
+    body = lam.fields['value']
+    tcl = lam.fields.get('_t')
+    chk.ob('R-TEMPLATE', LR, isinstance(tcl, TCls) and tcl.prim == 'lambda' and [a.prim for a in tcl.args] == ['nat', 'string'], 'the value is a lambda ty1 ty2', flr.loc,
+           {'type': repr(tcl)}, what=f'LAMBDA_REC nat string pushes a value of type {tcl!r}')
+
+    # run the constructed body on [argument]
+    def run_seq(items, stack):
+        for x in items:
+            if isinstance(x, App) and x.op == 'seq':
+                r = run_seq(list(x.args), stack)
+                if r is not None:
+                    return r
+                continue
+            if type(x).__name__ == 'Body':
+                return list(stack)
+            if isinstance(x, App) and x.op == 'icls':
+                prim, a = x.args[0], list(x.args[1:])
+                if prim == 'LAMBDA_REC':
+                    stack.insert(0, 'the lambda itself')
+                elif prim == 'SWAP':
+                    stack[0], stack[1] = stack[1], stack[0]
+                elif prim == 'DIP' and len(a) == 1:
+                    top = stack.pop(0)
+                    r = run_seq([a[0]], stack)
+                    if r is not None:
+                        return ['<code runs under DIP>'] + r
+                    stack.insert(0, top)
+                elif prim in ('DIG', 'DUG') and len(a) == 1 and hasattr(a[0], 'n'):
+                    n = a[0].n
+                    if prim == 'DIG':
+                        stack.insert(0, stack.pop(n))
+                    else:
+                        stack.insert(n, stack.pop(0))
+                else:
+                    raise AnalysisError(f'LAMBDA_REC body prelude uses {prim}: not modelled')
+                continue
+            raise AnalysisError(f'LAMBDA_REC builds a body item that is not modelled: {vrepr(x)[:80]}')
+        return None
+
+    seen = run_seq([body], ['argument'])
+    chk.ob('R-TEMPLATE', LR, seen == ['argument', 'the lambda itself'], 'EXEC of a recursive lambda runs the code on `argument : the lambda itself : []`', flr.loc,
+           {'stack_handed_to_the_code': seen, 'body': vrepr(body)[:200]},
+           what=f'the body built by LAMBDA_REC runs the code on the stack {seen} (top first); the reference is [argument, the lambda itself] '
+                '(instr :: ty1 : lambda ty1 ty2 : [] => ty2 : []): `LAMBDA_REC nat nat { DIP { DROP } } ; PUSH nat 5 ; EXEC` fails with "expected nat, got lambda"')
 
 
 def _getters(p) -> List[str]:
